@@ -98,6 +98,18 @@ def run(chk):
             if ee < 2**32 and g == "err":
                 chk.violate({"kind": "property", "case": lib.show_case(c), "impl": g, "platform": "GOARCH=386",
                              "explanation": "a well-formed version string whose epoch fits the Epoch field was refused"})
+    # 1d. the parsed value handed to encoding/json BY VALUE (Parse returns a value), alone, in a struct and in a map: the marshalled
+    # text is the version text and reads back as the same value
+    jc = [("vjsonvalue", [c[1][0]]) for c in cases[::9]] if False else []
+    for _ in range(chk.n(400, 8000)):
+        e, up, rv = rand_triple(rng)
+        jc.append(("vjsonvalue", [rng.choice(renderings(rng, e, up, rv))]))
+    ji = chk.run_impl(jc)
+    chk.record("json-of-a-version-held-by-value", jc, ji, lambda c, r: r.startswith("same"))
+    for c, r in zip(jc, ji):
+        if not r.startswith("same "):
+            chk.violate({"kind": "property", "case": lib.show_case(c), "impl": r[:300],
+                         "explanation": "a parsed Version marshalled by value (json.Marshal of the value, of a struct and of a map holding it) does not read back as the same value"})
     # 2. exhaustive short strings
     ws = gen.words(EXH, 3 if chk.tier == "quick" else 4)
     cases = [("vparse", [w]) for w in ws]
